@@ -119,7 +119,7 @@ func c16Register(env world.Env, who, full string, years int64) mc.CaseResult {
 	}
 	cr.Class = "accepted/" + state
 	cr.Nontrivial = true
-	price := sdk.NewInt(years * c16Price(len(nm), tld))
+	price := sdk.NewInt(years).MulRaw(c16Price(len(nm), tld)) // arbitrary precision: the reference must not wrap around
 	if !deltaOf(d, acct.Bech, "ujkl").Equal(price.Neg()) {
 		vs = append(vs, viol("debit-is-years-times-yearly-price", "debit", "%q x%d: expected debit %s, balance changes %s", full, years, price, diffString(w, d, labels)))
 	}
@@ -141,10 +141,10 @@ func c16Register(env world.Env, who, full string, years int64) mc.CaseResult {
 		// whether anyone but the owner may register at height == Expires is unspecified, but whoever registers
 		// successfully - also there - has paid for a full term counted from the current height
 		if state == "live-own" {
-			if now.Expires != prev.Expires+years*c16YearBlocks {
+			if !sdk.NewInt(now.Expires).Equal(sdk.NewInt(prev.Expires).Add(sdk.NewInt(years).MulRaw(c16YearBlocks))) {
 				vs = append(vs, viol("renewal-extends-by-exactly-the-term", "renewal", "renewal x%d at height %d: expiry %d -> %d, expected %d", years, height, prev.Expires, now.Expires, prev.Expires+years*c16YearBlocks))
 			}
-		} else if now.Expires < height+years*c16YearBlocks {
+		} else if sdk.NewInt(now.Expires).LT(sdk.NewInt(height).Add(sdk.NewInt(years).MulRaw(c16YearBlocks))) {
 			vs = append(vs, viol("live-for-the-term", "state="+state, "registered %q x%d at height %d (previous expiry %d): new expiry %d < height + term = %d",
 				norm, years, height, prev.Expires, now.Expires, height+years*c16YearBlocks))
 		}
@@ -159,6 +159,9 @@ func c16Enum(thorough bool) mc.Enum {
 	if thorough {
 		maxLen, yearsSet, e.ConfB = 8, []int64{1, 2, 3, 5, 10}, 1<<30
 	}
+	// year counts at the edges of the accepted range (stateless validation does not bound them): price and
+	// expiry arithmetic must not wrap around
+	yearsSet = append(yearsSet, 0, -1, 1_844_674_407_371, 922_337_203_685, 1<<62, 1_681_669_000_000, 76_861_433_641)
 	// (a) first registrations
 	letters := "abcdefgh"
 	for l := 1; l <= maxLen; l++ {
